@@ -61,7 +61,6 @@ Proof.
   - destruct (delegate s staker asset operator x) as [s'|] eqn:E; simpl; [|apply keeps_refl; reflexivity].
     apply delegate_frame in E. destruct E as (? & _). apply keeps_refl; assumption.
   - destruct (undelegate s staker asset operator x nonce tx) as [[s' r]|] eqn:E; simpl; [|apply keeps_refl; reflexivity].
-    destruct (hook_panics s operator); simpl; [apply keeps_refl; reflexivity|].
     apply undelegate_shape in E. destruct E as (s4 & s5 & tok & U4 & P4 & H4 & -> & E5 & U' & P' & H').
     simpl in Fr. apply has_key_false in Fr.
     assert (idx_inv s4) as I4 by (eapply (idx_inv_ext s s4); eauto).
@@ -87,7 +86,7 @@ Proof.
     destruct (slash s operator eh p) as [s'|] eqn:E; simpl; [|apply keeps_refl; reflexivity].
     unfold slash in E. destruct ((p <? 0) || (p >? P)); [discriminate|].
     destruct (slash_pools operator p (oa s) (dg s) (sl s)) as [[[o' d'] l'] ev2].
-    destruct (eh <? height s).
+    destruct (eh <=? height s).
     + pose proof (slash_records_map operator eh p (ur s)) as M.
       destruct (slash_records operator eh p (ur s)) as [u' ev1]. simpl in M. subst u'.
       inversion E; subst; clear E. intros k r G. simpl. rewrite sget_map_vals, G. simpl.
@@ -98,6 +97,7 @@ Proof.
   - pose proof (hold_inc_frame s rk) as (? & _). apply keeps_refl; assumption.
   - pose proof (hold_dec_frame s rk) as (? & _). apply keeps_refl; assumption.
   - congruence.
+  - discriminate.
 Qed.
 
 (* ---- the index-bijection defect: a witness history ---- *)
